@@ -216,81 +216,151 @@ func checkC17(p *Prog, r *Report) {
 	wm := anchorFunc(p, r, pkgWire, "MultiplexWriter", "WriteMsg")
 	if wm != nil {
 		n := 0
-		allCalls(wm, func(c ssa.CallInstruction) {
-			if calleeName(c) != "encoding/binary.Write" {
-				return
-			}
-			n++
-			hdr := stripConv(c.Common().Args[2])
-			// the header may be built by a single-return helper: look at its result
-			// expression and map its parameters back to the call's arguments
-			argOf := func(v ssa.Value) ssa.Value { return v }
-			if hcall, isCall := hdr.(*ssa.Call); isCall {
-				if res := stripConv(helperResult(hcall)); res != ssa.Value(hcall) {
-					callee := hcall.Common().StaticCallee()
-					argOf = func(v ssa.Value) ssa.Value {
-						for i, pp := range callee.Params {
-							if ssa.Value(pp) == stripConv(v) && i < len(hcall.Common().Args) {
-								return hcall.Common().Args[i]
+		gEB := p.ModGraph()
+		for _, unitFn := range gEB.unitFuncs(wm) {
+			unitFn := unitFn
+			allCalls(unitFn, func(c ssa.CallInstruction) {
+				if calleeName(c) != "encoding/binary.Write" {
+					return
+				}
+				n++
+				hdr := stripConv(c.Common().Args[2])
+				// the header may be built by a single-return helper: look at its result
+				// expression and map its parameters back to the call's arguments
+				argOf := func(v ssa.Value) ssa.Value { return v }
+				if hcall, isCall := hdr.(*ssa.Call); isCall {
+					if res := stripConv(helperResult(hcall)); res != ssa.Value(hcall) {
+						callee := hcall.Common().StaticCallee()
+						argOf = func(v ssa.Value) ssa.Value {
+							for i, pp := range callee.Params {
+								if ssa.Value(pp) == stripConv(v) && i < len(hcall.Common().Args) {
+									return hcall.Common().Args[i]
+								}
 							}
+							return v
 						}
-						return v
-					}
-					hdr = res
-				}
-			}
-			or, ok := hdr.(*ssa.BinOp)
-			okHdr := ok && or.Op == token.OR
-			var lenPart ssa.Value
-			if okHdr {
-				// (base+tag)<<24 | uint32(len)
-				shl, isShl := or.X.(*ssa.BinOp)
-				if isShl && shl.Op == token.SHL {
-					if k, isK := constInt(shl.Y); isK && k == 24 {
-						lenPart = or.Y
+						hdr = res
 					}
 				}
-			}
-			bounded := false
-			why := "header is not (mplexBase+tag)<<24 | uint32(length)"
-			if lenPart != nil {
-				why = "encoded length is not bounded by a constant ≤ maxMessageSize (a payload ≥ 2^24 spills into the tag byte)"
-				core := stripConv(argOf(lenPart))
-				// min(len(p), K)
-				if call, isCall := core.(*ssa.Call); isCall {
-					if bi, isB := call.Common().Value.(*ssa.Builtin); isB && bi.Name() == "min" {
-						for _, a := range call.Common().Args {
-							if k, isK := constInt(a); isK && k <= maxMsg && k <= 0xFFFFFF {
-								bounded = true
-							}
+				or, ok := hdr.(*ssa.BinOp)
+				okHdr := ok && or.Op == token.OR
+				var lenPart ssa.Value
+				if okHdr {
+					// (base+tag)<<24 | uint32(len)
+					shl, isShl := or.X.(*ssa.BinOp)
+					if isShl && shl.Op == token.SHL {
+						if k, isK := constInt(shl.Y); isK && k == 24 {
+							lenPart = or.Y
 						}
 					}
 				}
-				for _, f := range cmpFactsFor(core, c) {
-					if k, isK := constInt(f.other); isK && k <= 0xFFFFFF && (f.op == token.LEQ || f.op == token.LSS) {
-						bounded = true
-					}
-				}
-				// payload written next is p[:length]
-				if bounded {
-					match := false
-					allCalls(wm, func(w ssa.CallInstruction) {
-						if w.Common().IsInvoke() && w.Common().Method.Name() == "Write" && InstrDominates(c, w) {
-							if sl, isSl := w.Common().Args[0].(*ssa.Slice); isSl && sl.High != nil && sameCore(sl.High, core) && sl.Low == nil {
-								match = true
-							} else if sameLen(w.Common().Args[0], core) {
-								match = true
+				bounded := false
+				why := "header is not (mplexBase+tag)<<24 | uint32(length)"
+				if lenPart != nil {
+					why = "encoded length is not bounded by a constant ≤ maxMessageSize (a payload ≥ 2^24 spills into the tag byte)"
+					core := stripConv(argOf(lenPart))
+					// min(len(p), K)
+					if call, isCall := core.(*ssa.Call); isCall {
+						if bi, isB := call.Common().Value.(*ssa.Builtin); isB && bi.Name() == "min" {
+							for _, a := range call.Common().Args {
+								if k, isK := constInt(a); isK && k <= maxMsg && k <= 0xFFFFFF {
+									bounded = true
+								}
 							}
 						}
-					})
-					if !match {
-						bounded = false
-						why = "the payload written after the header is not the slice of exactly the encoded length"
+					}
+					for _, f := range cmpFactsFor(core, c) {
+						if k, isK := constInt(f.other); isK && k <= 0xFFFFFF && (f.op == token.LEQ || f.op == token.LSS) {
+							bounded = true
+						}
+					}
+					// len(p) of a helper's parameter: every call site passes x[:l] with l bounded
+					if lc, isCall := core.(*ssa.Call); isCall && !bounded && unitFn != wm {
+						if bi, isB := lc.Common().Value.(*ssa.Builtin); isB && bi.Name() == "len" && len(lc.Common().Args) == 1 {
+							if prm, isP := unwrapLocal(lc.Common().Args[0]).(*ssa.Parameter); isP {
+								idx := -1
+								for i, pp := range unitFn.Params {
+									if pp == prm {
+										idx = i
+									}
+								}
+								sitesOK, nSites := true, 0
+								for _, e := range gEB.In[unitFn] {
+									if isTestSupport(pkgPathOfFunc(e.From)) {
+										continue
+									}
+									cs, isCS := e.Site.(ssa.CallInstruction)
+									if !isCS || e.Escape || cs.Common().StaticCallee() != unitFn || idx < 0 || idx >= len(cs.Common().Args) {
+										sitesOK = false
+										continue
+									}
+									nSites++
+									sl, isSl := cs.Common().Args[idx].(*ssa.Slice)
+									okSite := false
+									if isSl && sl.High != nil {
+										hi := stripConv(sl.High)
+										if k, isK := constInt(hi); isK && k <= maxMsg && k <= 0xFFFFFF {
+											okSite = true
+										}
+										if call, isC := hi.(*ssa.Call); isC {
+											if bi, isB := call.Common().Value.(*ssa.Builtin); isB && bi.Name() == "min" {
+												for _, a := range call.Common().Args {
+													if k, isK := constInt(a); isK && k <= maxMsg && k <= 0xFFFFFF {
+														okSite = true
+													}
+												}
+											}
+										}
+										for _, f := range cmpFactsFor(hi, cs) {
+											if k, isK := constInt(f.other); isK && k <= 0xFFFFFF && (f.op == token.LEQ || f.op == token.LSS) {
+												okSite = true
+											}
+										}
+									}
+									if !okSite {
+										sitesOK = false
+									}
+								}
+								if sitesOK && nSites > 0 {
+									bounded = true
+									// the payload written is the parameter itself
+									match := false
+									allCalls(unitFn, func(w ssa.CallInstruction) {
+										if w.Common().IsInvoke() && w.Common().Method.Name() == "Write" && len(w.Common().Args) == 1 && unwrapLocal(w.Common().Args[0]) == ssa.Value(prm) {
+											match = true
+										}
+									})
+									if match {
+										r.Cond(true, "C17/EMIT-BOUNDED", "WriteMsg header", p.Pos(instrPos(c)), "")
+										return
+									}
+									bounded = false
+									why = "the payload written after the header is not the slice of exactly the encoded length"
+								}
+							}
+						}
+					}
+					// payload written next is p[:length]
+					if bounded {
+						match := false
+						allCalls(unitFn, func(w ssa.CallInstruction) {
+							if w.Common().IsInvoke() && w.Common().Method.Name() == "Write" && InstrDominates(c, w) {
+								if sl, isSl := w.Common().Args[0].(*ssa.Slice); isSl && sl.High != nil && sameCore(sl.High, core) && sl.Low == nil {
+									match = true
+								} else if sameLen(w.Common().Args[0], core) {
+									match = true
+								}
+							}
+						})
+						if !match {
+							bounded = false
+							why = "the payload written after the header is not the slice of exactly the encoded length"
+						}
 					}
 				}
-			}
-			r.Cond(bounded, "C17/EMIT-BOUNDED", "WriteMsg header", p.Pos(instrPos(c)), why)
-		})
+				r.Cond(bounded, "C17/EMIT-BOUNDED", "WriteMsg header", p.Pos(instrPos(c)), why)
+			})
+		}
 		if n == 0 {
 			r.Bad("C17/EMIT-BOUNDED", "WriteMsg header", p.Pos(wm.Pos()), "no header write found")
 		}
@@ -302,6 +372,7 @@ func checkC17(p *Prog, r *Report) {
 	}
 
 	checkSwitchOnce(p, r)
+	checkFrameAtomic(p, r)
 	r.Trust("bufio.Reader.Read calls the underlying reader with its whole buffer or with a caller slice at least that large (standard library behaviour)")
 	r.Uncovered("equality of results across re-framings as an end-to-end fact")
 }
